@@ -113,7 +113,8 @@ func chunk(b []byte, text bool, p *picker) [][]byte {
 func encCbor(out []byte, v *val, p *picker) []byte {
 	switch v.k {
 	case kNull:
-		return append(out, 0xf6)
+		// null, undefined, an unassigned simple value 0..19: torepr gives null for all of them
+		return append(out, []byte{0xf6, 0xf7, 0xe0, 0xe7, 0xf3}[p.pick(5)])
 	case kBool:
 		if v.b {
 			return append(out, 0xf5)
